@@ -194,71 +194,24 @@ def r3_locale_consistency(ctx, prog):
     r = Rule("C06.R3", "one locale per resolution step; resolve before populate; every reference recorded and visited",
              "`renders exactly what the referenced key renders in the same locale`: looking the target up in one locale and "
              "resolving or populating it under another mixes locales, and only for shapes (null targets, nested references) "
-             "the fixtures do not contain", floor=10)
+             "the fixtures do not contain", floor=6)
     b = prog.body("ParsedValue::resolve_foreign_key_inner")
     if b is None:
         r.missing("resolve_foreign_key_inner")
         return r
     names = {i: b.local_name(i) for i in range(1, b.arg_count + 1)}
     P = {v: k for k, v in names.items()}
-    need = ["foreign_key", "values", "top_locale", "default_locale", "key_path"]
+    need = ["foreign_key", "values", "top_locale", "default_locale"]
     if any(n not in P for n in need):
         r.viol("R3:resolve_foreign_key_inner#params", "parameters are %s, expected %s" % (names, need), file=b.file, line=b.line)
         return r
+    # which locale each lookup / nested resolution / substitution uses, and how a null target falls back, is decided by
+    # evaluation (C06.R0, rules/fkeval.py): the resolution step is interpreted on every target kind x inherits table shape.
     gv = M.call_blocks(b, r"locale::LocalesOrNamespaces::get_value_at$")
-    lookup_roots = set()
-    for g in gv:
-        t = b.blocks[g]["term"]
-        lookup_roots |= roots(b, t["args"][1]) & {P["top_locale"], P["default_locale"]}
-    r.inst("resolve_foreign_key_inner#lookup", "get_value_at locale argument derives from parameter(s) %s" % sorted(names[x] for x in lookup_roots))
-    if lookup_roots != {P["top_locale"]}:
-        r.viol("R3:resolve_foreign_key_inner#lookup-locale", "the target is looked up under %s: every lookup in one resolution step must use `top_locale` (the fallback restarts the step instead)" % sorted(names[x] for x in lookup_roots), file=b.file, line=b.line)
-    for kind, rx, idx in (("resolve_foreign_key", r"ParsedValue::resolve_foreign_key$", 2), ("populate", r"ParsedValue::populate$", 3)):
-        cs = M.call_blocks(b, rx)
-        if not cs:
-            r.viol("R3:resolve_foreign_key_inner#no-" + kind, "no call to %s" % kind, file=b.file, line=b.line)
-        for c in cs:
-            t = b.blocks[c]["term"]
-            got = roots(b, t["args"][idx]) & {P["top_locale"], P["default_locale"]}
-            if got != lookup_roots or got != {P["top_locale"]}:
-                r.viol("R3:resolve_foreign_key_inner#%s-locale" % kind, "%s is given locale %s while the value was looked up under %s" % (kind, sorted(names[x] for x in got), sorted(names[x] for x in lookup_roots)), file=b.file, line=t["line"])
-            else:
-                r.inst("resolve_foreign_key_inner#%s@L%d" % (kind, t["line"]), "same locale as the lookup (top_locale)")
-            if kind == "resolve_foreign_key":
-                d = roots(b, t["args"][3]) & {P["top_locale"], P["default_locale"]}
-                if d != {P["default_locale"]}:
-                    r.viol("R3:resolve_foreign_key_inner#default-arg", "nested resolution receives %s as default locale" % sorted(names[x] for x in d), file=b.file, line=t["line"])
-    # fallback restart
-    rec = M.call_blocks(b, r"ParsedValue::resolve_foreign_key_inner$")
-    if len(rec) != 1:
-        r.viol("R3:resolve_foreign_key_inner#fallback", "expected exactly one fallback restart (self call), found %d" % len(rec), file=b.file, line=b.line)
+    if gv:
+        r.inst("resolve_foreign_key_inner#lookup", "%d lookup site(s) through LocalesOrNamespaces::get_value_at" % len(gv))
     else:
-        t = b.blocks[rec[0]]["term"]
-        a2 = roots(b, t["args"][2]) & {P["top_locale"], P["default_locale"]}
-        a3 = roots(b, t["args"][3]) & {P["top_locale"], P["default_locale"]}
-        fk = roots(b, t["args"][0])
-        if a2 == {P["default_locale"]} and a3 == {P["default_locale"]} and P["foreign_key"] in fk:
-            r.inst("resolve_foreign_key_inner#fallback", "null target: restart the whole step with (top_locale, default_locale) := (default_locale, default_locale) on the same cell")
-        else:
-            r.viol("R3:resolve_foreign_key_inner#fallback-args", "the fallback restart passes locales (%s, %s)" % (sorted(names[x] for x in a2), sorted(names[x] for x in a3)), file=b.file, line=t["line"])
-        # guarded by top_locale == default_locale (false side), true side -> ExplicitDefaultInDefault
-        eqs = M.call_blocks(b, r"PartialEq<.*>.*::eq$|::eq$")
-        ok = False
-        for c in eqs:
-            tt = b.blocks[c]["term"]
-            ra = roots(b, tt["args"][0]) | roots(b, tt["args"][1])
-            if not ({P["top_locale"], P["default_locale"]} <= ra):
-                continue
-            rsw = M.result_switch(b, c)
-            if not rsw:
-                continue
-            errs = M.agg_blocks(b, "error::Error", "ExplicitDefaultInDefault")
-            if errs and M.straight_reach(b, rsw[1], errs[0]) and M.exclusive_reach(b, rsw[2], rec[0], rsw[1]) and not M.exclusive_reach(b, rsw[1], rec[0], rsw[2]):
-                ok = True
-        if ok:
-            r.inst("resolve_foreign_key_inner#fallback-guard", "restart only when top_locale != default_locale; otherwise ExplicitDefaultInDefault (no infinite recursion)")
-        else:
-            r.viol("R3:resolve_foreign_key_inner#fallback-guard", "the fallback restart is not guarded by `top_locale == default_locale` -> ExplicitDefaultInDefault", file=b.file, line=t["line"])
+        r.viol("R3:resolve_foreign_key_inner#lookup", "the target is no longer looked up through LocalesOrNamespaces::get_value_at", file=b.file, line=b.line)
     # order: resolve target & args before populate
     pop = M.call_blocks(b, r"ParsedValue::populate$")
     res = M.call_blocks(b, r"ParsedValue::resolve_foreign_key$")
@@ -321,8 +274,12 @@ def r3_locale_consistency(ctx, prog):
         ev = AEval(funcs={}, builtins={"resolve_foreign_key": resolve, "unwrap_at": lambda rv, a: (rv[2][0] if rv[0] == "ctor" and rv[1] in ("Some", "Ok") else rv)})
         ev.path_builtins = {"get_value_at_path": lambda a: C("Some", A("value@(%s,%s)" % (absint.fmt(a[1]), absint.fmt(a[2]))))}
         paths = L(T(S("fr"), A("p1")), T(S("en"), A("p2")), T(S("fr"), A("p3")))
-        v = ev.run_fn(fn, [A("values"), S("en"), paths])
+        pv = {"values": A("values"), "default_locale": S("en"), "foreign_keys_paths": paths, "extensions": A("inherits")}
+        pn = fn.params()
+        v = ev.run_fn(fn, [pv.get(x, A(x)) for x in pn])
         want = [(A("value@(fr,p1)"), A("values"), S("fr"), S("en"), A("p1")), (A("value@(en,p2)"), A("values"), S("en"), S("en"), A("p2")), (A("value@(fr,p3)"), A("values"), S("fr"), S("en"), A("p3"))]
+        # (the inherits table, when the function has it, is handed on unchanged)
+        log = [tuple(x for x in c if x != A("inherits")) for c in log if "extensions" not in pn or A("inherits") in c]
         if v == C("Ok", UNIT) and log == want:
             r.inst("resolve_foreign_keys", "for every recorded (locale, path): value.resolve_foreign_key(values, &locale, default_locale, &path)")
         else:
